@@ -11,7 +11,7 @@ Conformance R: StopwatchReplay.tla / TimersReplay.tla print every operation sequ
 the real Stopwatch / Timer / Timestamp / TimestampOnClose over a ManuallyAdvancedTimeSource and compares
 what closing reports after EVERY step with the value TLC computed from the property layer.
 """
-import json, os, sys
+import json, os, re, sys
 sys.path.insert(0, os.path.join(os.path.dirname(os.path.abspath(__file__)), "..", "lib"))
 import vlib
 from vlib import log
@@ -91,9 +91,10 @@ def replay_file(chk, kind, path, n, ticks, label):
                 ops = [(s[0] if kind == "sw" else s["op"]) + (f"({s[1]})" if kind == "sw" and s[1] else "")
                        + (f"+{s[2] if kind == 'sw' else s['d']}" if (s[0] if kind == "sw" else s["op"]) == "Advance" else "")
                        for s in upto]
+                unit = "ns since the epoch" if m["kind"] in ("timestamp", "format") else "ticks; -1 = nothing"
                 chk.violation(
                     f"{label}: after {' '.join(ops)} (tick {tick} ns): {m['what']}: the specification expects "
-                    f"{m['expected']} (ticks; -1 = nothing), the real code reports {m['got']}",
+                    f"{m['expected']} ({unit}), the real code reports {m['got']}",
                     {"kind": kind, "behaviour": beh, "id": row["id"], "tick_ns": tick, "mismatches": row["mismatches"]},
                     key=f"C18:{kind}:{m['kind']}")
             if drift and len(chk.drift) < 20:
@@ -145,20 +146,21 @@ def run(prop, tier):
         replay_file(chk, kind, path, n, ticks, label)
         chk.nontrivial.update(f"{label}:{i}" for i in range(n))
         chk.sample({label: nth_line(path, n // 2)})
-    # 3. long random walks (TLC -simulate, seeded)
-    walks = 30 if quick else 250          # per TLC worker
-    wdepth = 2000 if quick else 10000
-    for kind, module, cfg, label in [("sw", "StopwatchReplay", "MC_sw_sim.cfg", "sw-walks"),
-                                     ("tm", "TimersReplay", "MC_tm_sim.cfg", "tm-walks")]:
-        # Depth is a constant of the cfg: write a cfg with the tier's depth into the run directory
-        src = open(os.path.join(SPECD, cfg)).read().replace("Depth = 2000", f"Depth = {wdepth}").replace("Depth = 1000", f"Depth = {wdepth}")
-        lcfg = os.path.join(chk.dir, f"{label}.cfg")
-        with open(lcfg, "w") as f:
-            f.write(src)
-        path, n = generate(chk, module, lcfg, label, simulate=walks, depth=wdepth + 1, seed=chk.seed * 1000 + 18)
-        nb[label] = n
-        replay_file(chk, kind, path, n, ticks[:2], label)
-        chk.nontrivial.update(f"{label}:{chk.seed}:{i}" for i in range(n))
+    # 3. long random walks (TLC -simulate, seeded); (walks per TLC worker, steps)
+    plans = [(30, 2000)] if quick else [(200, 2000), (25, 10000)]
+    for walks, wdepth in plans:
+        for kind, module, cfg, label in [("sw", "StopwatchReplay", "MC_sw_sim.cfg", f"sw-walks-{wdepth}"),
+                                         ("tm", "TimersReplay", "MC_tm_sim.cfg", f"tm-walks-{wdepth}")]:
+            # Depth is a constant of the cfg: write a cfg with this plan's depth into the run directory
+            src = open(os.path.join(SPECD, cfg)).read()
+            src = re.sub(r"Depth = \d+", f"Depth = {wdepth}", src)
+            lcfg = os.path.join(chk.dir, f"{label}.cfg")
+            with open(lcfg, "w") as f:
+                f.write(src)
+            path, n = generate(chk, module, lcfg, label, simulate=walks, depth=wdepth + 1, seed=chk.seed * 1000 + 18)
+            nb[label] = n
+            replay_file(chk, kind, path, n, ticks[:2], label)
+            chk.nontrivial.update(f"{label}:{chk.seed}:{i}" for i in range(n))
     chk.extra["behaviours"] = nb
     # vacuity: the interesting cases must actually have been reached
     cases = chk.extra.get("cases_reached", {})
